@@ -35,6 +35,7 @@ type CutSpec struct {
 	Anchor  string
 	Asserts []*Clause
 	Assumes []*Clause
+	Lets    []*Clause // ghost snapshots: name := expr evaluated at the cut
 }
 
 type CallSpec struct { // obligations at a call site: //@ at call N <callee> assert E   (args as $1..$n, receiver $0)
@@ -320,6 +321,15 @@ func ParseContractFile(path, pkgPath string) (*ContractFile, error) {
 				} else if strings.HasPrefix(rest, "assume") {
 					rest = strings.TrimSpace(rest[6:])
 					cs.Assumes = append(cs.Assumes, newClause())
+				} else if strings.HasPrefix(rest, "let ") {
+					parts := strings.SplitN(rest[4:], ":=", 2)
+					if len(parts) != 2 {
+						return nil, fmt.Errorf("%s:%d: at stmt let needs `name := expr`", path, ln)
+					}
+					rest = strings.TrimSpace(parts[1])
+					c := newClause()
+					c.Label = strings.TrimSpace(parts[0])
+					cs.Lets = append(cs.Lets, c)
 				} else {
 					return nil, fmt.Errorf("%s:%d: at stmt needs assert/assume", path, ln)
 				}
